@@ -109,3 +109,44 @@ def rot_from_quat(w, x, y, z):
 
 def matvec(R, v):
     return [R[i][0] * v[0] + R[i][1] * v[1] + R[i][2] * v[2] for i in range(3)]
+
+
+def min_enclosing_ball(P):
+    """Smallest ball containing the points P (lists of Fractions): (centre, r^2), by brute force over support sets of
+    2 .. d+1 points (exact).  Independent of miniball and of coxeter's wrapper."""
+    import itertools
+
+    d = len(P[0])
+
+    def circum(S):
+        base = S[0]
+        E = [sub(p, base) for p in S[1:]]
+        m = len(E)
+        A = [[dot(E[i], E[j]) for j in range(m)] + [dot(E[i], E[i]) / 2] for i in range(m)]
+        for c in range(m):
+            piv = next((r for r in range(c, m) if A[r][c] != 0), None)
+            if piv is None:
+                return None
+            A[c], A[piv] = A[piv], A[c]
+            for r in range(m):
+                if r != c and A[r][c] != 0:
+                    f = A[r][c] / A[c][c]
+                    A[r] = [x - f * y for x, y in zip(A[r], A[c])]
+        cen = list(base)
+        for i, e in enumerate(E):
+            lam = A[i][m] / A[i][i]
+            cen = [x + lam * y for x, y in zip(cen, e)]
+        return cen
+
+    best = None
+    for k in range(2, min(len(P), d + 1) + 1):
+        for idx in itertools.combinations(range(len(P)), k):
+            cen = circum([P[i] for i in idx])
+            if cen is None:
+                continue
+            r2 = dot(sub(P[idx[0]], cen), sub(P[idx[0]], cen))
+            if best is not None and r2 >= best[1]:
+                continue
+            if all(dot(sub(p, cen), sub(p, cen)) <= r2 for p in P):
+                best = (cen, r2)
+    return best
